@@ -154,3 +154,14 @@ Inductive acc_stmt :=
 | ASReturnIfRevoked             (* if permit.is_revoked() { return; } *)
 | ASAcceptOrPermit (arms : list (acc_pat * list acc_act)).
     (* match or(async { Some(AcceptResult::new(listener.accept().await)) }, async { (&mut permit).await; None }).await { arms } *)
+
+(* Head::try_read (src/head.rs) *)
+Inductive tr_stmt :=
+| TRReadHeadBytes                 (* let head = Self::read_head_bytes(buf)?; *)
+| TRSplitLinesTrimCr (sep : N)    (* let mut lines = head.split(|b| *b == sep).map(trim_trailing_cr); *)
+| TRFirstLineOr (missing_request_line : bool)
+                                  (* let request_line = lines.next().ok_or(HeadError::MissingRequestLine)?; *)
+| TRParseRequestLine              (* let (method, url) = Self::parse_request_line(request_line)?; *)
+| TRNewHeaders                    (* let mut headers = HeaderList::new(); *)
+| TRForLinesParsePush             (* for line in lines { let header = Self::parse_header_line(line)?; headers.push(header); } *)
+| TROkSelf.                       (* Ok(Self { method, url, headers }) *)
